@@ -189,70 +189,7 @@ func runC03(c *eng.Ctx) {
 	p := c.P
 
 	// ---- 1/2/3. one atomic install; both input levels ---------------------------------------------------------------------
-	c.Rule("ORDER", cjT+".installCompactionResults{one commit}", func() {
-		f := c.Fn(cjT + ".installCompactionResults")
-		cm := c.Some(f, invokeOn(".family", "commitEditLog"), "family.commitEditLog")
-		c.Check(len(cm) == 1, "exactly-one-commit", cm[0].Instr, f, "input deletions and output additions are installed by ONE commit (readers see the old or the new file set, never a mix)", fmt.Sprintf("%d commits", len(cm)))
-		a := eng.CallArgs(cm[0].Instr.(*ssa.Call))[0]
-		c.Check(strings.Contains(p.Desc(a), ".compaction.GetEditLog()") || strings.Contains(p.Desc(a), ".compaction.editLog"), "commits-the-compaction-log", cm[0].Instr, f, "what is committed is the compaction's edit log", "commits "+p.Desc(a))
-		for _, m := range []struct{ name, desc string }{{"MarkInputDeletes", "input deletions"}, {"AddFile", "output additions"}} {
-			for i, s := range c.Some(f, eng.AnyCallTo(cmpT+"."+m.name), m.name) {
-				_, late := eng.Reaches(f, cm[0].Instr, []eng.Site{s}, nil)
-				c.Check(!late && strings.Contains(p.Desc(eng.CallRecv(s.Instr.(ssa.CallInstruction))), ".state.compaction"), fmt.Sprintf("%s-in-that-log[%d]", m.name, i), s.Instr, f,
-					m.desc+" are recorded in the compaction's log before the commit", "")
-			}
-		}
-		// deletions are skipped only for a rollup job (inputs belong to another family)
-		md := c.One(f, eng.AnyCallTo(cmpT+".MarkInputDeletes"), "MarkInputDeletes")
-		conds, _ := eng.GuardingConds(f, md.Instr)
-		okG := len(conds) == 1 && strings.HasSuffix(p.Desc(conds[0]), ".rollup==nil)") || len(conds) == 1 && strings.Contains(p.Desc(conds[0]), ".rollup")
-		c.Check(okG, "deletes-unless-rollup", md.Instr, f, "inputs are deleted unless the job is a rollup (whose inputs live in the source family)", fmt.Sprintf("%d guarding conditions", len(conds)))
-		// outputs: every recorded output is added
-		ad := c.One(f, eng.AnyCallTo(cmpT+".AddFile"), "AddFile")
-		conds2, _ := eng.GuardingConds(f, ad.Instr)
-		okO := false
-		for _, cd := range conds2 {
-			if strings.Contains(p.Desc(cd), ".outputs") {
-				okO = true
-			}
-		}
-		c.Check(okO, "all-outputs-added", ad.Instr, f, "every output file of the job is added", "")
-		mk := c.Fn(cmpT + ".MarkInputDeletes")
-		type del struct {
-			list, level string
-		}
-		var dels []del
-		for _, s := range c.Some(mk, eng.CallTo("kv/version.NewDeleteFile"), "NewDeleteFile") {
-			a := eng.CallArgs(s.Instr.(*ssa.Call))
-			list := ""
-			switch {
-			case eng.DependsOnField(a[1], cmpT+".levelInputs"):
-				list = "levelInputs"
-			case eng.DependsOnField(a[1], cmpT+".levelUpInputs"):
-				list = "levelUpInputs"
-			}
-			dels = append(dels, del{list, p.Desc(a[0])})
-		}
-		want := map[string]string{"levelInputs": "c.level", "levelUpInputs": "(c.level+1)"}
-		seen := map[string]bool{}
-		for _, d := range dels {
-			seen[d.list] = true
-			c.Check(d.list != "" && d.level == want[d.list], "delete-level:"+d.list, nil, mk, "files of "+d.list+" are deleted at level "+want[d.list], "deleted at "+d.level)
-		}
-		c.Check(seen["levelInputs"] && seen["levelUpInputs"], "both-input-levels-deleted", nil, mk, "both the level's inputs and the overlapping inputs one level up are deleted", fmt.Sprint(dels))
-		it := c.Fn(cjT + ".makeInputIterator")
-		gi := c.One(it, eng.AnyCallTo(cmpT+".GetInputs"), "GetInputs()")
-		conds3, _ := eng.GuardingConds(it, gi.Instr)
-		okBoth := false
-		for _, cd := range conds3 {
-			if strings.HasSuffix(p.Desc(cd), "<2)") {
-				okBoth = true
-			}
-		}
-		c.Check(okBoth, "iterates-both-input-sets", gi.Instr, it, "the merged input iterator is built from both input sets (which < 2)", "")
-		gr := c.One(it, invokeOn(".snapshot", "GetReader"), "snapshot.GetReader")
-		c.Check(eng.DependsOn(eng.CallArgs(gr.Instr.(*ssa.Call))[0], func(x ssa.Value) bool { return x == gi.Instr.(ssa.Value) }), "reader-per-input-file", gr.Instr, it, "a reader is opened for every input file", "")
-	})
+	c.Rule("ORDER", cjT+".installCompactionResults{one commit}", func() { installOneCommit(c) })
 
 	// ---- 4. the merge loop -------------------------------------------------------------------------------------------------------
 	c.Rule("PASS", cjT+".doMerge{no value dropped}", func() {
@@ -1137,4 +1074,71 @@ func flushFieldPerTargetField(c *eng.Ctx) {
 		everyIterationPasses(c, f, eng.Site{Fn: f, Instr: top}, fmt.Sprintf("per-field[%d]", i),
 			"every iteration over the target fields reaches FlushField (an empty entry for a field without data): no `continue` passes it by")
 	}
+}
+
+func installOneCommit(c *eng.Ctx) {
+	p := c.P
+	_ = p
+	f := c.Fn(cjT + ".installCompactionResults")
+	cm := c.Some(f, invokeOn(".family", "commitEditLog"), "family.commitEditLog")
+	c.Check(len(cm) == 1, "exactly-one-commit", cm[0].Instr, f, "input deletions and output additions are installed by ONE commit (readers see the old or the new file set, never a mix)", fmt.Sprintf("%d commits", len(cm)))
+	a := eng.CallArgs(cm[0].Instr.(*ssa.Call))[0]
+	c.Check(strings.Contains(p.Desc(a), ".compaction.GetEditLog()") || strings.Contains(p.Desc(a), ".compaction.editLog"), "commits-the-compaction-log", cm[0].Instr, f, "what is committed is the compaction's edit log", "commits "+p.Desc(a))
+	for _, m := range []struct{ name, desc string }{{"MarkInputDeletes", "input deletions"}, {"AddFile", "output additions"}} {
+		for i, s := range c.Some(f, eng.AnyCallTo(cmpT+"."+m.name), m.name) {
+			_, late := eng.Reaches(f, cm[0].Instr, []eng.Site{s}, nil)
+			c.Check(!late && strings.Contains(p.Desc(eng.CallRecv(s.Instr.(ssa.CallInstruction))), ".state.compaction"), fmt.Sprintf("%s-in-that-log[%d]", m.name, i), s.Instr, f,
+				m.desc+" are recorded in the compaction's log before the commit", "")
+		}
+	}
+	// deletions are skipped only for a rollup job (inputs belong to another family)
+	md := c.One(f, eng.AnyCallTo(cmpT+".MarkInputDeletes"), "MarkInputDeletes")
+	conds, _ := eng.GuardingConds(f, md.Instr)
+	okG := len(conds) == 1 && strings.HasSuffix(p.Desc(conds[0]), ".rollup==nil)") || len(conds) == 1 && strings.Contains(p.Desc(conds[0]), ".rollup")
+	c.Check(okG, "deletes-unless-rollup", md.Instr, f, "inputs are deleted unless the job is a rollup (whose inputs live in the source family)", fmt.Sprintf("%d guarding conditions", len(conds)))
+	// outputs: every recorded output is added
+	ad := c.One(f, eng.AnyCallTo(cmpT+".AddFile"), "AddFile")
+	conds2, _ := eng.GuardingConds(f, ad.Instr)
+	okO := false
+	for _, cd := range conds2 {
+		if strings.Contains(p.Desc(cd), ".outputs") {
+			okO = true
+		}
+	}
+	c.Check(okO, "all-outputs-added", ad.Instr, f, "every output file of the job is added", "")
+	mk := c.Fn(cmpT + ".MarkInputDeletes")
+	type del struct {
+		list, level string
+	}
+	var dels []del
+	for _, s := range c.Some(mk, eng.CallTo("kv/version.NewDeleteFile"), "NewDeleteFile") {
+		a := eng.CallArgs(s.Instr.(*ssa.Call))
+		list := ""
+		switch {
+		case eng.DependsOnField(a[1], cmpT+".levelInputs"):
+			list = "levelInputs"
+		case eng.DependsOnField(a[1], cmpT+".levelUpInputs"):
+			list = "levelUpInputs"
+		}
+		dels = append(dels, del{list, p.Desc(a[0])})
+	}
+	want := map[string]string{"levelInputs": "c.level", "levelUpInputs": "(c.level+1)"}
+	seen := map[string]bool{}
+	for _, d := range dels {
+		seen[d.list] = true
+		c.Check(d.list != "" && d.level == want[d.list], "delete-level:"+d.list, nil, mk, "files of "+d.list+" are deleted at level "+want[d.list], "deleted at "+d.level)
+	}
+	c.Check(seen["levelInputs"] && seen["levelUpInputs"], "both-input-levels-deleted", nil, mk, "both the level's inputs and the overlapping inputs one level up are deleted", fmt.Sprint(dels))
+	it := c.Fn(cjT + ".makeInputIterator")
+	gi := c.One(it, eng.AnyCallTo(cmpT+".GetInputs"), "GetInputs()")
+	conds3, _ := eng.GuardingConds(it, gi.Instr)
+	okBoth := false
+	for _, cd := range conds3 {
+		if strings.HasSuffix(p.Desc(cd), "<2)") {
+			okBoth = true
+		}
+	}
+	c.Check(okBoth, "iterates-both-input-sets", gi.Instr, it, "the merged input iterator is built from both input sets (which < 2)", "")
+	gr := c.One(it, invokeOn(".snapshot", "GetReader"), "snapshot.GetReader")
+	c.Check(eng.DependsOn(eng.CallArgs(gr.Instr.(*ssa.Call))[0], func(x ssa.Value) bool { return x == gi.Instr.(ssa.Value) }), "reader-per-input-file", gr.Instr, it, "a reader is opened for every input file", "")
 }
